@@ -255,6 +255,11 @@ func newSim(env *simcore.Env, cfg simcore.Op) simcore.Sim {
 			gd.ConsensusParams.Evidence.MaxBytes = int64(mb) / 3
 		}
 	}
+	if cfg.Bool("prune") {
+		// evidence older than 3 blocks is expired (both limits must be passed: the duration is 1ns)
+		gd.ConsensusParams.Evidence.MaxAgeNumBlocks = 3
+		gd.ConsensusParams.Evidence.MaxAgeDuration = 1
+	}
 	for i, n := range s.nodes {
 		if s.powers[i] > 0 {
 			gd.Validators = append(gd.Validators, types.GenesisValidator{Address: n.addr, PubKey: n.key.PubKey(), Power: s.powers[i], Name: n.name})
@@ -841,7 +846,9 @@ func (s *sim) Next(rng *simcore.RNG) simcore.Op {
 			tx = fmt.Sprintf("big%d=%d", s.txSeq, rng.Range(20000, 70000))
 		}
 		if s.cfg.Bool("prune") && rng.Bool(0.15) {
-			tx = fmt.Sprintf("retain:%d", rng.Range(1, 3))
+			// ABCI: retain_height must leave what evidence verification needs; the genesis of
+			// pruning runs sets the evidence age to 3 blocks, the application keeps at least 4
+			tx = fmt.Sprintf("retain:%d", rng.Range(4, 7))
 		}
 		if s.cfg.Bool("valtx") && rng.Bool(0.3) {
 			vi := rng.Intn(len(s.nodes))
